@@ -260,6 +260,8 @@ class Config:
         self.label_sym("Lx", [pt(8.0) + (1,)], cols=("x1", "zz", "y"))           # a renamed column: refused
         self.label_sym("Lm", [(pt(8.0)[0], 1)], cols=("x1", "y"))                # a missing column: refused
         self.label_sym("Le", [pt(8.0) + (1, 3.0)], cols=("x1", "x2", "y", "w"))  # an extra column: refused
+        a, b = pt(8.0)
+        self.label_sym("Lz", [(a, b, b, 1)], cols=("x1", "x2", "x2", "y"))       # a repeated column name: the same *set* of names, another count: refused
         self.label_sym("Lq", [pt(8.0) + (1,)], cols=("x1", "x1", "y"))           # right number, duplicate name: refused
         return self
 
@@ -287,7 +289,7 @@ class Config:
 
 
 PLAIN = ["Ui", "Uo", "U2", "Lc", "Lw", "L2", "Lx"]
-FULL = ["Ui", "Uo", "U2", "U0", "Lc", "Lw", "Lp", "L2", "L0", "Lx", "Lm", "Le", "Lq", "U3", "Ld", "Lv", "Lr"]
+FULL = ["Ui", "Uo", "U2", "U0", "Lc", "Lw", "Lp", "L2", "L0", "Lx", "Lm", "Le", "Lq", "Lz", "U3", "Ld", "Lv", "Lr"]
 # in the reduced exploration these are tried from every reached state but not extended (they only vary the sample's data)
 LEAF_ONLY = {"U3", "Ld", "Lv", "Lr"}
 START = (("x1", "x2"), ())      # harness bookkeeping: (feature order of the current reference, labelled samples of the round)
@@ -791,7 +793,7 @@ def random_case(task):
         r = rng.random()
         illegal = r < 0.18
         if illegal:
-            name = str(rng.choice(["U2", "U0", "L2", "L0", "Lx", "Lm", "Le", "Lq"] + (["Ui", "Uo", "U3"] if waiting else ["Lc", "Lw", "Lp"])))
+            name = str(rng.choice(["U2", "U0", "L2", "L0", "Lx", "Lm", "Le", "Lq", "Lz"] + (["Ui", "Uo", "U3"] if waiting else ["Lc", "Lw", "Lp"])))
             sym = cfg.syms[name]
         elif waiting:
             if rng.random() < 0.1:
